@@ -225,3 +225,63 @@ Proof.
     split; [repeat split|]. split; [repeat split|].
     unfold mx_K, mx_set_l. cbn [xl xk xs xn]. intros q0 w0 p0 d0 r0 [K1 K2]. split; assumption.
 Qed.
+
+(* ------------------------------------------------------------------ the word stays an int32 *)
+
+Lemma mx_step_length s i : length (xthreads (fst (mx_step s i))) = length (xthreads s).
+Proof.
+  unfold mx_step. destruct (nth_error (xthreads s) i) as [th|] eqn:E; [|reflexivity].
+  destruct (mx_step_th (xword s) (xsema s) th) as [[[r' t'] th'] ev]. cbn [fst xthreads].
+  assert (Hi : i < length (xthreads s)) by (apply nth_error_Some; congruence).
+  rewrite app_length. cbn [length]. rewrite firstn_length, skipn_length. lia.
+Qed.
+
+Lemma mx_run_length s sched : length (xthreads (mx_final s sched)) = length (xthreads s).
+Proof.
+  unfold mx_final. revert s. induction sched as [|i r IH]; intros s; cbn [mx_run]; [reflexivity|].
+  pose proof (mx_step_length s i) as H1.
+  destruct (mx_step s i) as [s1 ev] eqn:E. specialize (IH s1).
+  destruct (mx_run s1 r) as [s2 tr] eqn:E2. cbn [fst] in *. lia.
+Qed.
+
+Lemma mx_sum_QWG_le l : mx_sum mx_wQ l + mx_sum mx_wW l + mx_sum mx_wG l <= length l.
+Proof.
+  unfold mx_sum. induction l as [|th l IH]; cbn [fold_right length]; [lia|].
+  assert (mx_wQ th + mx_wW th + mx_wG th <= 1) by (unfold mx_wQ, mx_wW, mx_wG; destruct (xpc th); lia).
+  lia.
+Qed.
+
+(* the waiter field never exceeds the number of threads, so with fewer than 2^28 threads the
+   word is a valid non-negative int32 (the precondition of mx_count_truthful) *)
+Theorem mx_waiters_le_threads progs sched :
+  xn (xword (mx_final (mx_init progs) sched)) <= length progs.
+Proof.
+  pose proof (mx_waiter_accounting progs sched) as [A B]. cbn zeta in A, B.
+  pose proof (mx_sum_QWG_le (xthreads (mx_final (mx_init progs) sched))) as Hle.
+  rewrite mx_run_length in Hle.
+  assert (Hl : length (xthreads (mx_init progs)) = length progs) by (unfold mx_init; cbn [xthreads]; apply map_length).
+  rewrite Hl in Hle.
+  unfold mx_cnt in *.
+  destruct (xs (xword (mx_final (mx_init progs) sched))) eqn:Es.
+  - destruct (B eq_refl) as [Hn _]. lia.
+  - destruct (A eq_refl) as [Hn _]. lia.
+Qed.
+
+Theorem mx_word_valid progs sched :
+  (Z.of_nat (length progs) < 2 ^ 28)%Z ->
+  mx_valid_word (mx_enc (xword (mx_final (mx_init progs) sched))).
+Proof.
+  intros Hlen. unfold mx_enc. apply mx_mk_valid.
+  pose proof (mx_waiters_le_threads progs sched). lia.
+Qed.
+
+(* the dead-end branches of the step function are real: from (unreachable) states each of
+   them is taken -- a statement sanity check for mx_no_inconsistent_state *)
+Lemma mx_dead_ends_exist :
+  snd (mx_step_th {| xl := true; xk := false; xs := false; xn := 0 |} 0
+         (mx_mkth (XLCas 0 0 true false {| xl := true; xk := false; xs := false; xn := 0 |}) false [])) = XEPanic /\
+  snd (mx_step_th {| xl := true; xk := false; xs := true; xn := 1 |} 0 (mx_mkth (XLWoke 0 0 true) false [])) = XEPanic /\
+  snd (mx_step_th {| xl := false; xk := false; xs := true; xn := 0 |} 0 (mx_mkth (XLWoke 0 0 true) false [])) = XEPanic /\
+  snd (mx_step_th {| xl := true; xk := false; xs := true; xn := 1 |} 0 (mx_mkth (XLHand true) false [])) = XEPanic /\
+  snd (mx_step_th {| xl := false; xk := false; xs := false; xn := 1 |} 0 (mx_mkth XU1 true [])) = XEPanic.
+Proof. repeat split. Qed.
